@@ -206,8 +206,22 @@ pub fn run(ctx: &mut WorkerCtx, job: &Value) -> JobOutput {
             }
         })
     });
+    // C02: was the touched definition referenced anywhere else in the file?
+    let referenced = match &edit {
+        Edit::DefRenamed { line } | Edit::DefRemoved { line } => {
+            let lines = diskfault::split_lines(&orig);
+            lines
+                .get(*line)
+                .and_then(|l| diskfault::quoted_spans(l).first().map(|(a, b)| format!("\"{}\"", &l[*a..*b])))
+                .map(|q| orig.matches(q.as_str()).count() > 1)
+                .unwrap_or(false)
+        }
+        Edit::RefRenamed { .. } => true,
+        _ => false,
+    };
     let mut result = json!({
         "changed": changed,
+        "referenced": referenced,
         "hash": hash,
         "stdout_bytes": out_bytes.len(),
     });
